@@ -175,6 +175,57 @@ def ww_at_gamma_singularity(ctx: Ctx) -> None:
                                   {"dtype": str(dtype), "cost": cost, "time_to_maturity": t, "volatility": v, "previous": prev.tolist(), "output": out.tolist()})
 
 
+def reconfigured_modules(ctx: Ctx) -> None:
+    """Long-lived helper modules whose public attributes are re-assigned after they were used: the module behaves like a freshly
+    built one with the attributes it REPORTS - Clamp / LeakyClamp after valid re-assignments of `inverted_output` and after an
+    assignment that was rejected with an error; SVIVariance after each of its five parameters was re-assigned (number or tensor)."""
+    from pfhedge.nn import Clamp, LeakyClamp, SVIVariance
+    dtype = torch.float64
+    x = torch.tensor([-1.0, 0.25, 0.5, 2.0], dtype=dtype)
+    lo, hi = torch.tensor(0.75, dtype=dtype), torch.tensor(0.125, dtype=dtype)         # inverted bounds
+    for cls, kw in ((Clamp, {}), (LeakyClamp, {"clamped_slope": 0.125})):
+        for start in ("mean", "max"):
+            try:
+                m = cls(inverted_output=start, **kw)
+            except TypeError:
+                ctx.skip(f"{cls.__name__} does not take the inverted_output option")
+                continue
+            m(x, hi, lo); m(x, lo, hi)
+            for value in ("max", "mean", "maximum", "mean", "max", None, "max"):
+                try:
+                    m.inverted_output = value
+                except (ValueError, TypeError):
+                    pass
+                reported = m.inverted_output
+                if reported not in ("mean", "max"):                      # an invalid value that was accepted: put a valid one back
+                    m.inverted_output = start
+                    reported = m.inverted_output
+                fresh = cls(inverted_output=reported, **kw)
+                for a_, b_ in ((lo, hi), (hi, lo)):
+                    try:
+                        got, want = m(x, a_, b_), fresh(x, a_, b_)
+                    except Exception as e:
+                        ctx.violation(f"clamp:{cls.__name__}:reconfigured:raises", f"{cls.__name__} raised {type(e).__name__} after inverted_output was re-assigned", {"error": repr(e)[:200]})
+                        continue
+                    ctx.count(("reconfigured", cls.__name__, start, str(value)), n=1)
+                    if not torch.equal(got, want):
+                        ctx.violation(f"clamp:{cls.__name__}:reconfigured", f"{cls.__name__} reports inverted_output={reported!r} after the assignments but does not behave like a fresh module with that option",
+                                      {"started_as": start, "last_assigned": value, "bounds": [a_.item(), b_.item()], "module": got.tolist(), "fresh": want.tolist()})
+    base = {"a": 0.03, "b": 0.1, "rho": -0.5, "m": 0.05, "sigma": 0.25}
+    k = torch.tensor([-0.5, -0.1, 0.0, 0.2, 0.75], dtype=dtype)
+    for name in base:
+        for spelled in ("number", "tensor"):
+            m = SVIVariance(**base)
+            m(k)
+            new = dict(base, **{name: base[name] * 0.5 + 0.0625})
+            setattr(m, name, new[name] if spelled == "number" else torch.tensor(new[name], dtype=dtype))
+            got, want = m(k), SVIVariance(**new)(k)
+            ctx.count(("reconfigured", "SVIVariance", name, spelled), n=1)
+            if got.shape != want.shape or not bool(((got - want).abs() <= 1e-15).all()):
+                ctx.violation("svi:reconfigured", f"SVIVariance after its parameter {name} was re-assigned ({spelled}) does not return the variance of the new parameters",
+                              {"parameter": name, "module": got.tolist(), "fresh": want.tolist()})
+
+
 def _module(cls, ctx: Ctx, name: str, kw: Dict[str, Any]):
     try:
         return cls(**kw)
@@ -399,6 +450,7 @@ def check(ctx: Ctx) -> None:
     replay_clamp(ctx, rc.records)
     clamp_double_precision(ctx)
     ww_at_gamma_singularity(ctx)
+    reconfigured_modules(ctx)
     replay_ww(ctx, rw.records, 8)
     replay_helpers(ctx, rw.records)
     for r in rc.records + rw.records:
